@@ -39,11 +39,18 @@ def main():
             fcntl.flock(f, fcntl.LOCK_UN)
         return n
 
+    import fnmatch
+
+    known = [k for k in harness.load_known() if k["property"] == prop]
+    unknown_n = 0
     mine = claim()
     for i, case in enumerate(mod.cases(tier, seed)):
         if i != mine:
             continue
         mine = claim()
+        if unknown_n >= 12:
+            summary["obs"]["cases_skipped_after_12_unknown_violations"] = summary["obs"].get("cases_skipped_after_12_unknown_violations", 0) + 1
+            continue
         if budget and time.monotonic() - t0 > budget:
             summary["obs"]["cases_skipped_budget"] = summary["obs"].get("cases_skipped_budget", 0) + 1
             continue
@@ -66,6 +73,8 @@ def main():
         for v in res.get("violations", []):
             if v["prop"] != prop:
                 continue
+            if not any(fnmatch.fnmatchcase(v["key"], k["key"]) for k in known):
+                unknown_n += 1
             if sum(1 for x in summary["violations"] if x["key"] == v["key"]) >= 3:
                 summary["obs"]["violations_suppressed_same_key"] = summary["obs"].get("violations_suppressed_same_key", 0) + 1
                 summary["violations"].append({"prop": v["prop"], "key": v["key"], "msg": v["msg"], "replay": "<same class as above>"})
@@ -79,6 +88,10 @@ def main():
             summary["samples"].append(res["sample"])
     with open(out, "wb") as f:
         pickle.dump(summary, f)
+        f.flush()
+        os.fsync(f.fileno())
+    sys.stdout.flush()
+    os._exit(0)  # never wait for wedged daemon/worker threads of a violated run
 
 
 if __name__ == "__main__":
